@@ -6,6 +6,7 @@ import (
 	"io"
 	"regexp"
 	"runtime"
+	"sort"
 	"strings"
 	"sync"
 	"time"
@@ -470,6 +471,7 @@ func c04Run(c *C) {
 		step int
 	}
 	var kept []keptResult
+	var blockBase []string
 	var trace []D
 	okSeen, errSeen := false, false
 	for i := range hist {
@@ -496,27 +498,38 @@ func c04Run(c *C) {
 		if r.Chance(25) {
 			// block by block: ExecuteBlocks with a list of names - real ones, unknown ones, names that are no identifiers (an
 			// unsplit request parameter "a,b"), duplicates, the empty list - gives what a fresh compile gives for that list
-			var real []string
-			for _, m := range reBlockName.FindAllStringSubmatch(p.main, -1) {
-				real = append(real, m[1])
-			}
-			for _, f := range p.files {
-				for _, m := range reBlockName.FindAllStringSubmatch(f, -1) {
+			if blockBase == nil {
+				// the names of this history: chosen once, then asked for in different shapes (so that a list and its joined
+				// spelling, a list and its duplicate, meet on the same compiled template)
+				var real []string
+				for _, m := range reBlockName.FindAllStringSubmatch(p.main, -1) {
 					real = append(real, m[1])
 				}
+				var fnames []string
+				for fn := range p.files {
+					fnames = append(fnames, fn)
+				}
+				sort.Strings(fnames)
+				for _, fn := range fnames {
+					for _, m := range reBlockName.FindAllStringSubmatch(p.files[fn], -1) {
+						real = append(real, m[1])
+					}
+				}
+				real = append(real, "nosuchblock")
+				for k := 1 + r.Intn(3); k > 0; k-- {
+					blockBase = append(blockBase, real[r.Intn(len(real))])
+				}
 			}
-			real = append(real, "nosuchblock")
-			var names []string
-			for k := r.Intn(4); k > 0; k-- {
-				names = append(names, real[r.Intn(len(real))])
-			}
-			switch r.Intn(5) {
+			names := append([]string(nil), blockBase...)
+			switch r.Intn(6) {
 			case 0:
 				names = []string{strings.Join(names, ",")}
 			case 1:
 				names = append(names, strings.Join(names, ","), "")
 			case 2:
 				names = append(names, names...)
+			case 3:
+				names = names[:1]
 			}
 			bctx := pool[hist[i]]
 			gotB, gotErr := used.ExecuteBlocks(bctx, append([]string(nil), names...))
